@@ -1,11 +1,24 @@
-(* C20 -- interrupted initialisation: the history theorem is FALSE once an exception may interrupt
-   the first initialisation (refuted with a witness that is replayed on the implementation:
-   finding KF-C20-1), and it holds for every history outside that class (partial theorem). *)
+(* C20 -- interrupted initialisation.  Whether an exception during the FIRST initialisation of the
+   default lexer can be observed later depends on the shape of the generated program, summarised by
+   the generated flag [publishes_before_init] (Gen/SingletonProg.v), which is re-derived here from the
+   instruction list ([publishes_flag_ok]):
+
+   * [C20_xhistory_if_publishes_last]   flag = false -> the history theorem holds UNCONDITIONALLY,
+     interrupted first initialisations included (nothing is published before it is complete: the next
+     call starts from scratch);
+   * [C20_xhistory_refuted_if_publishes] flag = true -> the history theorem is FALSE, with a witness
+     that is replayed on the implementation (finding KF-C20-1);
+   * [C20_xhistory_partial]              in both cases it holds for every history without an
+     interrupted initialisation.
+   Which case holds NOW is one vm_compute obligation in Inst/C20Finding.v (resp. Inst/C20Fixed.v).
+   Generic in the program: every program of the publish-last shape has flag false
+   ([new_shape_publishes_last]), every program of the publish-first shape has flag true
+   ([old_shape_publishes_first]). *)
 From Coq Require Import String.
 From SqlModel Require Import Base.
 From SqlModel.Sys Require Import Singleton History HistoryX.
 From SqlModel.Gen Require Import SingletonProg StateInv.
-From SqlModel.Sys Require Import HistoryFacts.
+From SqlModel.Sys Require Import SingletonFacts HistoryFacts.
 
 Lemma xeff_emb st : xeff (emb st) = Some (eff st).
 Proof. destruct st as [[c|]]; reflexivity. Qed.
@@ -32,7 +45,7 @@ Section Results.
   Variable R : Type.
   Variable sem : option cfg -> op -> R.
 
-  (* everything outside the finding's class is still covered *)
+  (* every history without an interrupted initialisation is covered, whatever the program shape *)
   Theorem C20_xhistory_partial : forall h call,
     kf_interrupted_init h = false -> ends_defaultb (strip h) = true ->
     xresult_after R sem h call = xresult_fresh R sem call.
@@ -44,33 +57,406 @@ Section Results.
 End Results.
 Print Assumptions C20_xhistory_partial.
 
-(* The full statement is false.  Witness 1: interrupted right after the assignment -> the instance
-   has no attributes: every later call raises AttributeError.  Witness 2: interrupted inside
-   set_SQL_REGEX (3 statements done) -> empty rule list, no dictionaries: every later call silently
-   yields one Error token per character.  No reconfiguration operation in either history. *)
-Theorem C20_xhistory_refuted :
+(* ============================== boolean equalities ============================================== *)
+Lemma opt_nat_eqb_eq a b : opt_nat_eqb a b = true <-> a = b.
+Proof.
+  destruct a as [x|], b as [y|]; cbn [opt_nat_eqb]; split; intros H; try discriminate; try reflexivity.
+  - apply Nat.eqb_eq in H. congruence.
+  - injection H as ->. apply Nat.eqb_refl.
+Qed.
+
+Lemma cfg_eqb_eq a b : cfg_eqb a b = true <-> a = b.
+Proof.
+  destruct a as [r1 k1], b as [r2 k2]. unfold cfg_eqb. cbn [c_rx c_kws].
+  rewrite andb_true_iff, opt_nat_eqb_eq, nat_list_eqb_eq. split.
+  - intros [-> ->]. reflexivity.
+  - intros H. injection H as -> ->. auto.
+Qed.
+
+Lemma lex_eqb_eq a b : lex_eqb a b = true <-> a = b.
+Proof.
+  destruct a as [|x], b as [|y]; cbn [lex_eqb]; split; intros H; try discriminate; try reflexivity.
+  - apply cfg_eqb_eq in H. congruence.
+  - injection H as ->. apply cfg_eqb_eq. reflexivity.
+Qed.
+
+Lemma forallb_false_witness {A} (f : A -> bool) l :
+  forallb f l = false -> exists x, In x l /\ f x = false.
+Proof.
+  induction l as [|a l IH]; cbn [forallb]; intros H; [discriminate|].
+  destruct (f a) eqn:E.
+  - cbn [andb] in H. destruct (IH H) as (x & Hin & Hx). exists x. split; [right; assumption|assumption].
+  - exists a. split; [left; reflexivity|assumption].
+Qed.
+
+(* ============================== generic in the program ========================================== *)
+Lemma interrupted_of_after_end p k :
+  length (init_steps p) <= k -> interrupted_init_of p k = interrupted_init_of p (length (init_steps p)).
+Proof.
+  intros H. unfold interrupted_init_of. rewrite !firstn_all2; [reflexivity| |]; lia.
+Qed.
+
+(* flag false: whatever the interruption point, either nothing is published or the finished lexer *)
+Lemma publishes_last_spec p :
+  publishes_before_initb p = false ->
+  forall k, interrupted_init_of p k = None
+            \/ interrupted_init_of p k = Some (LCfg (default_init_of p cleared_cfg)).
+Proof.
+  unfold publishes_before_initb. intros H k. apply negb_false_iff in H.
+  assert (G : forall k', k' <= length (init_steps p) ->
+              interrupted_init_of p k' = None
+              \/ interrupted_init_of p k' = Some (LCfg (default_init_of p cleared_cfg))).
+  { intros k' Hk'. rewrite forallb_forall in H.
+    assert (Hin : In k' (seq 0 (S (length (init_steps p))))) by (apply in_seq; lia).
+    specialize (H k' Hin). unfold harmless_of in H.
+    destruct (interrupted_init_of p k') as [l|]; [|left; reflexivity].
+    right. apply lex_eqb_eq in H. congruence. }
+  destruct (Nat.le_gt_cases k (length (init_steps p))) as [Hle|Hgt].
+  - apply G. exact Hle.
+  - rewrite (interrupted_of_after_end p k) by lia. apply G. lia.
+Qed.
+
+(* flag true: some interruption point leaves a published instance that is not the finished lexer *)
+Lemma publishes_first_spec p :
+  publishes_before_initb p = true ->
+  exists k l, interrupted_init_of p k = Some l /\ l <> LCfg (default_init_of p cleared_cfg).
+Proof.
+  unfold publishes_before_initb. intros H. apply negb_true_iff in H.
+  apply forallb_false_witness in H. destruct H as (k & _ & Hk). unfold harmless_of in Hk.
+  destruct (interrupted_init_of p k) as [l|] eqn:E; [|discriminate].
+  exists k, l. split; [exact E|]. intros ->.
+  assert (Ht : lex_eqb (LCfg (default_init_of p cleared_cfg)) (LCfg (default_init_of p cleared_cfg)) = true)
+    by (apply lex_eqb_eq; reflexivity).
+  congruence.
+Qed.
+
+(* ---- every program of the publish-last shape has flag false ---------------------------------- *)
+Lemma is_obj_is_init i : is_obj i = true -> is_init_instr i = true.
+Proof. destruct i; try discriminate; reflexivity. Qed.
+Lemma is_obj_is_cfg i : is_obj i = is_cfg_instr i.
+Proof. destruct i; reflexivity. Qed.
+
+Lemma filter_all {A} (f : A -> bool) l : (forall x, In x l -> f x = true) -> filter f l = l.
+Proof.
+  induction l as [|a l IH]; intros H; [reflexivity|]. cbn [filter].
+  rewrite (H a (or_introl eq_refl)). f_equal. apply IH. intros x Hx. apply H. right. exact Hx.
+Qed.
+
+Lemma body_all_obj e nw p body : shape e nw p body -> forall i, In i body -> is_obj i = true.
+Proof. intros [_ (fin & Hex & _)] i Hin. eapply exec_body_is_obj; eauto. Qed.
+
+Lemma init_steps_shape e nw p body :
+  shape e nw p body ->
+  init_steps p = if nw then INewLocal :: body ++ [IPublishSelf] else INewAssign :: ILoadSelf :: body.
+Proof.
+  intros Hs. pose proof (body_all_obj _ _ _ _ Hs) as Hb. destruct Hs as [-> _].
+  assert (Hf : filter is_init_instr body = body)
+    by (apply filter_all; intros x Hx; apply is_obj_is_init, Hb, Hx).
+  unfold init_steps, prog_of. destruct nw; cbn [filter is_init_instr]; rewrite filter_app, Hf;
+    cbn [filter is_init_instr]; [reflexivity|rewrite app_nil_r; reflexivity].
+Qed.
+
+Lemma init_body_shape e nw p body : shape e nw p body -> init_body p = body.
+Proof.
+  intros Hs. rewrite <- (shape_body _ _ _ _ Hs). unfold init_body.
+  apply filter_ext. intros i. symmetry. apply is_obj_is_cfg.
+Qed.
+
+(* as long as nothing has been published, statements on the local object publish nothing *)
+Lemma fold_exec_lex_unpublished l : forall loc,
+  (forall i, In i l -> is_obj i = true) ->
+  fold_left exec_lex l (None, loc) = (None, match loc with Some _ => fold_left upd_lex l loc | None => None end).
+Proof.
+  induction l as [|i l IH]; intros loc Hl; [destruct loc; reflexivity|].
+  cbn [fold_left]. assert (Hi : is_obj i = true) by (apply Hl; left; reflexivity).
+  assert (Hl' : forall i', In i' l -> is_obj i' = true) by (intros i' H'; apply Hl; right; exact H').
+  destruct loc as [lo|].
+  - assert (E : exec_lex (None, Some lo) i = (None, upd_lex (Some lo) i))
+      by (destruct i; try discriminate; reflexivity).
+    rewrite E. rewrite (IH _ Hl').
+    assert (Hsome : exists lo', upd_lex (Some lo) i = Some lo').
+    { destruct i; try discriminate; cbn [upd_lex]; [eexists; reflexivity| |];
+        destruct lo; eexists; reflexivity. }
+    destruct Hsome as [lo' ->]. reflexivity.
+  - assert (E : exec_lex (None, None) i = (None, None)) by (destruct i; try discriminate; reflexivity).
+    rewrite E. apply (IH None Hl').
+Qed.
+
+Lemma fold_upd_lex_cfg l : forall c,
+  (forall i, In i l -> is_obj i = true) ->
+  fold_left upd_lex l (Some (LCfg c)) = Some (LCfg (fold_left exec_cfg l c)).
+Proof.
+  induction l as [|i l IH]; intros c Hl; [reflexivity|]. cbn [fold_left].
+  assert (Hi : is_obj i = true) by (apply Hl; left; reflexivity).
+  assert (E : upd_lex (Some (LCfg c)) i = Some (LCfg (exec_cfg c i)))
+    by (destruct i; try discriminate; reflexivity).
+  rewrite E. apply IH. intros i' H'. apply Hl. right. exact H'.
+Qed.
+
+Lemma in_firstn_in {A} (x : A) : forall k l, In x (firstn k l) -> In x l.
+Proof.
+  induction k as [|k IH]; intros l H; [destruct H|]. destruct l as [|a l]; [destruct H|].
+  cbn [firstn] in H. destruct H as [->|H]; [left; reflexivity|right; apply IH; exact H].
+Qed.
+
+Lemma firstn_cons_app_prefix {A} (a : A) body tl k :
+  k <= S (length body) -> firstn k (a :: body ++ tl) = firstn k (a :: body).
+Proof.
+  intros H. destruct k as [|k]; [reflexivity|]. cbn [firstn]. f_equal.
+  rewrite firstn_app. replace (k - length body) with 0 by lia. cbn [firstn]. apply app_nil_r.
+Qed.
+
+Theorem new_shape_publishes_last e p body :
+  shape e true p body -> starts_with_clear (init_body p) = true -> publishes_before_initb p = false.
+Proof.
+  intros Hs Hclr. pose proof (body_all_obj _ _ _ _ Hs) as Hb.
+  pose proof (init_steps_shape _ _ _ _ Hs) as Hst. cbn iota in Hst.
+  pose proof (init_body_shape _ _ _ _ Hs) as Hib.
+  unfold publishes_before_initb. apply negb_false_iff. apply forallb_forall. intros k Hk.
+  apply in_seq in Hk. unfold harmless_of, interrupted_init_of. rewrite Hst in *.
+  cbn [length] in Hk. rewrite app_length in Hk. cbn [length] in Hk.
+  destruct (Nat.le_gt_cases k (S (length body))) as [Hle|Hgt].
+  - (* the publication has not happened *)
+    rewrite firstn_cons_app_prefix by exact Hle.
+    destruct k as [|k]; [reflexivity|]. cbn [firstn fold_left exec_lex fst snd].
+    rewrite fold_exec_lex_unpublished; [reflexivity|].
+    intros i Hi. apply Hb. exact (in_firstn_in _ _ _ Hi).
+  - (* everything ran: the finished object is published *)
+    rewrite firstn_all2 by (cbn [length]; rewrite app_length; cbn [length]; lia).
+    cbn [fold_left exec_lex fst snd]. rewrite fold_left_app.
+    rewrite fold_exec_lex_unpublished by exact Hb. cbn [fold_left].
+    unfold default_init_of. rewrite Hib in *.
+    destruct body as [|i0 b']; [discriminate|]. destruct i0; try discriminate.
+    cbn [fold_left upd_lex exec_cfg].
+    rewrite fold_upd_lex_cfg by (intros i Hi; apply Hb; right; exact Hi).
+    cbn [exec_lex snd fst]. apply lex_eqb_eq. reflexivity.
+Qed.
+Print Assumptions new_shape_publishes_last.
+
+(* ---- ... and every program of the publish-first shape has flag true --------------------------- *)
+Theorem old_shape_publishes_first e p body : shape e false p body -> publishes_before_initb p = true.
+Proof.
+  intros Hs. pose proof (init_steps_shape _ _ _ _ Hs) as Hst. cbn iota in Hst.
+  unfold publishes_before_initb. apply negb_true_iff.
+  destruct (forallb (harmless_of p) (seq 0 (S (length (init_steps p))))) eqn:E; [|reflexivity].
+  exfalso. rewrite forallb_forall in E.
+  assert (Hin : In 1 (seq 0 (S (length (init_steps p))))).
+  { apply in_seq. rewrite Hst. cbn [length]. lia. }
+  specialize (E 1 Hin). unfold harmless_of, interrupted_init_of in E. rewrite Hst in E.
+  cbn [firstn fold_left exec_lex fst snd lex_eqb] in E. discriminate.
+Qed.
+Print Assumptions old_shape_publishes_first.
+
+(* ============================== the generated program =========================================== *)
+(* the translator's syntactic flag agrees with what the instruction list does (both sources) *)
+Lemma publishes_flag_ok : publishes_before_init = publishes_before_initb get_default_instance_prog.
+Proof. vm_compute. reflexivity. Qed.
+
+(* ... and with the shape found by the structural check *)
+Lemma publishes_flag_shape :
+  shape_of expected_kws get_default_instance_prog = Some (negb publishes_before_init).
+Proof. vm_compute. reflexivity. Qed.
+
+Lemma interrupted_after_end k : xinit_len <= k -> interrupted_init k = interrupted_init xinit_len.
+Proof. intros H. apply interrupted_of_after_end. exact H. Qed.
+
+Definition xop_op (x : xop) : op := match x with XOp o => o | XInterrupted _ o => o end.
+
+Section PublishesLast.
+  (* nothing but the finished lexer is ever published.  (The section is stated over this consequence
+     of "flag = false" rather than over the flag, so that no tactic can decide the hypothesis by
+     computation: the scripts below are the same whichever shape the source has.) *)
+  Hypothesis interrupted_none_or_default : forall k,
+    interrupted_init k = None \/ interrupted_init k = Some (LCfg default_cfg).
+
+  (* one (possibly interrupted) operation on a state without bare instance: no bare instance
+     afterwards; a default_initialization() restores the default; a call changes nothing visible *)
+  Lemma xapply_emb st x :
+    exists st', xapply (emb st) x = emb st'
+      /\ (is_default_init (xop_op x) = true -> eff st' = default_cfg)
+      /\ (is_reconf (xop_op x) = false -> eff st' = eff st).
+  Proof.
+    assert (Hop : forall o, exists st', xapply_op (emb st) o = emb st'
+                   /\ (is_default_init o = true -> eff st' = default_cfg)
+                   /\ (is_reconf o = false -> eff st' = eff st)).
+    { intros o. exists (apply st o). split; [apply xapply_op_emb|]. split.
+      - intros Hd. destruct o; try discriminate. apply C20_reinit_eff.
+      - intros Hr. apply C20_calls_pure_eff. exact Hr. }
+    destruct x as [o|k o]; cbn [xapply xop_op]; [apply Hop|].
+    destruct (touches_lexer o) eqn:Ht.
+    - destruct st as [[c|]]; cbn [emb xlexer lexer option_map].
+      + apply (Hop o).
+      + (* the first initialisation is interrupted: nothing, or the finished lexer, is left *)
+        destruct (interrupted_none_or_default k) as [->| ->].
+        * exists (mkP None). split; [reflexivity|]. split; intros _; reflexivity.
+        * exists (mkP (Some default_cfg)). split; [reflexivity|]. split; intros _; reflexivity.
+    - exists st. split; [reflexivity|]. split; [|reflexivity].
+      intros Hd. destruct o; discriminate.
+  Qed.
+
+  Lemma xrun_default : forall h st b,
+    (b = true -> eff st = default_cfg) ->
+    fold_left (fun b o => if is_reconf o then is_default_init o else b) (strip h) b = true ->
+    exists st', xrun h (emb st) = emb st' /\ eff st' = default_cfg.
+  Proof.
+    induction h as [|x h IH]; intros st b Hb He; cbn [strip map fold_left xrun] in *.
+    - exists st. split; [reflexivity|]. apply Hb. exact He.
+    - destruct (xapply_emb st x) as (st1 & E1 & Hd & Hr). rewrite E1.
+      fold (xrun h (emb st1)). fold (strip h) in He.
+      apply (IH st1 (if is_reconf (xop_op x) then is_default_init (xop_op x) else b)).
+      + destruct (is_reconf (xop_op x)) eqn:Er.
+        * exact Hd.
+        * intros Hb'. rewrite (Hr eq_refl). apply Hb. exact Hb'.
+      + destruct x as [o|k o]; exact He.
+  Qed.
+
+  Section Results.
+    Variable R : Type.
+    Variable sem : option cfg -> op -> R.
+
+    (* THE history theorem, interrupted first initialisations included *)
+    Theorem xhistory_publishes_last : forall h call,
+      ends_defaultb (strip h) = true ->
+      xresult_after R sem h call = xresult_fresh R sem call.
+    Proof.
+      intros h call He. unfold xresult_after, xresult_fresh, xresult.
+      change xfresh with (emb fresh).
+      destruct (xrun_default h fresh true (fun _ => eq_refl) He) as (st' & -> & Hd).
+      rewrite !xeff_emb, Hd. reflexivity.
+    Qed.
+  End Results.
+
+  (* no bare (attribute-less) instance is ever left behind *)
+  Theorem never_bare_publishes_last : forall h, xlexer (xrun h xfresh) <> Some LBare.
+  Proof.
+    intros h. change xfresh with (emb fresh).
+    assert (G : forall h st, exists st', xrun h (emb st) = emb st').
+    { clear h. induction h as [|x h IH]; intros st; [exists st; reflexivity|].
+      cbn [xrun fold_left]. destruct (xapply_emb st x) as (st1 & -> & _). apply IH. }
+    destruct (G h fresh) as (st' & ->). destruct st' as [[c|]]; discriminate.
+  Qed.
+End PublishesLast.
+
+Lemma flag_false_interrupted :
+  publishes_before_init = false ->
+  forall k, interrupted_init k = None \/ interrupted_init k = Some (LCfg default_cfg).
+Proof.
+  intros Hlast. apply (publishes_last_spec get_default_instance_prog).
+  rewrite <- publishes_flag_ok. exact Hlast.
+Qed.
+
+(* THE history theorem, interrupted first initialisations included, when nothing is published before
+   it is complete *)
+Theorem C20_xhistory_if_publishes_last :
+  publishes_before_init = false ->
+  forall (R : Type) (sem : option cfg -> op -> R) h call,
+    ends_defaultb (strip h) = true ->
+    xresult_after R sem h call = xresult_fresh R sem call.
+Proof.
+  intros Hlast R sem. exact (xhistory_publishes_last (flag_false_interrupted Hlast) R sem).
+Qed.
+Print Assumptions C20_xhistory_if_publishes_last.
+
+(* ... and no attribute-less instance is ever left behind *)
+Theorem C20_never_bare_if_publishes_last :
+  publishes_before_init = false -> forall h, xlexer (xrun h xfresh) <> Some LBare.
+Proof. intros Hlast. exact (never_bare_publishes_last (flag_false_interrupted Hlast)). Qed.
+
+(* The full statement is false when the instance is published first: an interruption point leaves a
+   published instance that is not the finished lexer; the next call works with it. *)
+Theorem C20_xhistory_refuted_if_publishes :
+  publishes_before_init = true ->
   exists h call,
     existsb is_reconf (strip h) = false /\
     xresult_after (option cfg) (fun c _ => c) h call <> xresult_fresh (option cfg) (fun c _ => c) call.
 Proof.
-  exists [XInterrupted 1 (OParse [115; 101; 108]%N)], (OParse [115; 101; 108]%N).
-  split; [reflexivity|]. vm_compute. discriminate.
+  intros Hp. rewrite publishes_flag_ok in Hp.
+  destruct (publishes_first_spec _ Hp) as (k & l & Hk & Hl).
+  exists [XInterrupted k (OParse [])], (OParse []). split; [reflexivity|].
+  unfold xresult_after, xresult_fresh, xresult. cbn [xrun fold_left xapply touches_lexer xlexer xfresh].
+  fold (interrupted_init k). unfold interrupted_init. rewrite Hk. unfold xeff. cbn [xlexer].
+  destruct l as [|c]; [discriminate|].
+  intros E. injection E as ->. apply Hl. reflexivity.
 Qed.
-Print Assumptions C20_xhistory_refuted.
+Print Assumptions C20_xhistory_refuted_if_publishes.
+
+(* Concrete witnesses for the publish-first shape.  Witness 1: interrupted right after the assignment
+   -> the instance has no attributes: every later call raises AttributeError.  Witness 2: interrupted
+   inside set_SQL_REGEX (3 statements done) -> empty rule list, no dictionaries: every later call
+   silently yields one Error token per character.  No reconfiguration operation in either history.
+   (Proof script valid for both sources: the hypothesis is decided by computation.) *)
+Theorem C20_xhistory_refuted_witness :
+  publishes_before_init = true ->
+  let h := [XInterrupted 1 (OParse [115; 101; 108]%N)] in
+  let call := OParse [115; 101; 108]%N in
+  existsb is_reconf (strip h) = false /\
+  xresult_after (option cfg) (fun c _ => c) h call = None /\
+  xresult_fresh (option cfg) (fun c _ => c) call = Some default_cfg.
+Proof.
+  vm_compute. intros H; first [discriminate H | repeat split].
+Qed.
 
 Theorem C20_xhistory_refuted_silent :
+  publishes_before_init = true ->
   exists h call,
     existsb is_reconf (strip h) = false /\
     xresult_after (option cfg) (fun c _ => c) h call = Some cleared_cfg /\
     xresult_fresh (option cfg) (fun c _ => c) call = Some default_cfg /\
     cleared_cfg <> default_cfg.
 Proof.
-  exists [XInterrupted 3 (OParse [115; 101; 108]%N)], (OParse [115; 101; 108]%N).
-  repeat split; try reflexivity. vm_compute. discriminate.
+  intros H. exists [XInterrupted 3 (OParse [115; 101; 108]%N)], (OParse [115; 101; 108]%N).
+  revert H. vm_compute. intros H; first [discriminate H | (repeat split; discriminate)].
 Qed.
 
-(* exactly which interruption points are harmless: before the assignment, or after the last
-   statement of default_initialization (checked for every k up to past the end) *)
+(* the dichotomy, decided by the generated flag: exactly one of the two holds *)
+Theorem C20_xhistory_dichotomy :
+  (publishes_before_init = false /\
+   forall (R : Type) (sem : option cfg -> op -> R) h call,
+     ends_defaultb (strip h) = true -> xresult_after R sem h call = xresult_fresh R sem call)
+  \/ (publishes_before_init = true /\
+      exists h call,
+        existsb is_reconf (strip h) = false /\
+        xresult_after (option cfg) (fun c _ => c) h call <> xresult_fresh (option cfg) (fun c _ => c) call).
+Proof.
+  destruct publishes_before_init eqn:E.
+  - right. split; [reflexivity|]. apply C20_xhistory_refuted_if_publishes. exact E.
+  - left. split; [reflexivity|]. exact (C20_xhistory_if_publishes_last E).
+Qed.
+Print Assumptions C20_xhistory_dichotomy.
+
+(* the two are never both true *)
+Lemma xhistory_not_both :
+  (forall h call, ends_defaultb (strip h) = true ->
+     xresult_after (option cfg) (fun c _ => c) h call = xresult_fresh (option cfg) (fun c _ => c) call) ->
+  (exists h call, existsb is_reconf (strip h) = false /\
+     xresult_after (option cfg) (fun c _ => c) h call <> xresult_fresh (option cfg) (fun c _ => c) call) ->
+  False.
+Proof.
+  intros Hall (h & call & Hnr & Hne). apply Hne. apply Hall.
+  unfold ends_defaultb. clear Hne.
+  assert (G : forall l b, existsb is_reconf l = false ->
+              fold_left (fun b o => if is_reconf o then is_default_init o else b) l b = b).
+  { induction l as [|o l IH]; intros b H; [reflexivity|]. cbn [existsb] in H.
+    apply orb_false_iff in H. destruct H as [Ho Hl]. cbn [fold_left]. rewrite Ho. apply IH. exact Hl. }
+  apply G. exact Hnr.
+Qed.
+
+(* one statement covering both sources: the guard "no interrupted initialisation" is needed only while
+   the instance is published before it is initialised *)
+Theorem C20_xhistory_guarded : forall (R : Type) (sem : option cfg -> op -> R) h call,
+  publishes_before_init = false \/ kf_interrupted_init h = false ->
+  ends_defaultb (strip h) = true ->
+  xresult_after R sem h call = xresult_fresh R sem call.
+Proof.
+  intros R sem h call [Hl|Hk] He.
+  - apply C20_xhistory_if_publishes_last; assumption.
+  - apply C20_xhistory_partial; assumption.
+Qed.
+Print Assumptions C20_xhistory_guarded.
+
+(* exactly which interruption points are harmless: before anything is published, or after the last
+   statement of the initialisation sequence (checked for every k up to past the end).  Publish-first:
+   only k = 0 and k >= xinit_len; publish-last: every k. *)
 Definition harmless (k : nat) : bool :=
   match xeff (xapply xfresh (XInterrupted k (OParse []))) with
   | Some c => cfg_eqb c default_cfg
@@ -79,14 +465,8 @@ Definition harmless (k : nat) : bool :=
 
 Example interrupted_harmless_table :
   map harmless (seq 0 (xinit_len + 3))
-  = map (fun k => Nat.eqb k 0 || Nat.leb xinit_len k) (seq 0 (xinit_len + 3)).
+  = map (fun k => negb publishes_before_init || Nat.eqb k 0 || Nat.leb xinit_len k) (seq 0 (xinit_len + 3)).
 Proof. vm_compute. reflexivity. Qed.
-
-Lemma interrupted_after_end k : xinit_len <= k -> interrupted_init k = interrupted_init xinit_len.
-Proof.
-  intros H. unfold interrupted_init, interrupted_init_of, xinit_len in *.
-  rewrite !firstn_all2; [reflexivity| |]; lia.
-Qed.
 
 Theorem C20_interrupted_complete_is_harmless : forall k o,
   xinit_len <= k -> xeff (xapply xfresh (XInterrupted k o)) = xeff xfresh.
@@ -96,11 +476,42 @@ Proof.
   vm_compute. reflexivity.
 Qed.
 
-Example xinit_obs_table :
-  map xinit_obs [0; 1; 2; 3; 4; 5]
+(* the states the driver command `xinit` prints, for both reference programs *)
+Definition xinit_obs_of (p : list instr) (k : nat) : option (bool * (bool * list nat)) :=
+  match interrupted_init_of p k with
+  | None => None
+  | Some LBare => Some (false, (false, []))
+  | Some (LCfg c) => Some (true, (match c_rx c with Some _ => true | None => false end, c_kws c))
+  end.
+
+Example xinit_obs_table_old :
+  map (xinit_obs_of old_prog) [0; 1; 2; 3; 4; 5]
   = [None; Some (false, (false, [])); Some (false, (false, [])); Some (true, (false, []));
      Some (true, (true, [])); Some (true, (true, [0]))].
 Proof. vm_compute. reflexivity. Qed.
+
+Example xinit_obs_table_new :
+  map (xinit_obs_of new_prog) (seq 0 (length (init_steps new_prog)))
+  = repeat None (length (init_steps new_prog))
+  /\ xinit_obs_of new_prog (length (init_steps new_prog)) = Some (true, (true, expected_kws)).
+Proof. vm_compute. split; reflexivity. Qed.
+
+Example xinit_obs_is_of : forall k, xinit_obs k = xinit_obs_of get_default_instance_prog k.
+Proof. reflexivity. Qed.
+
+Example flags_of_reference_programs :
+  publishes_before_initb old_prog = true /\ publishes_before_initb new_prog = false.
+Proof. vm_compute. split; reflexivity. Qed.
+
+(* a local that is published BEFORE it is initialised (x = cls(); cls._default_instance = x;
+   x.default_initialization()) is the same defect: the statements act on the published object *)
+Definition publish_early_prog : list instr :=
+  IAcquire :: IJumpIfInst (4 + length gen_body) :: INewLocal :: IPublishSelf :: gen_body ++ [IRelease; IReturn].
+Example publish_early_flag :
+  publishes_before_initb publish_early_prog = true /\ well_locked expected_kws publish_early_prog = false
+  /\ map (xinit_obs_of publish_early_prog) [0; 1; 2; 3; 4]
+     = [None; None; Some (false, (false, [])); Some (true, (false, [])); Some (true, (true, []))].
+Proof. vm_compute. repeat split. Qed.
 
 (* the hypotheses of the partial theorem are satisfiable on a non-trivial history *)
 Example ex_xhistory_partial_hyps :
@@ -108,3 +519,10 @@ Example ex_xhistory_partial_hyps :
   kf_interrupted_init h = false /\ ends_defaultb (strip h) = true
   /\ xeff (xrun h xfresh) = Some default_cfg.
 Proof. vm_compute. repeat split. Qed.
+
+(* a history with interrupted initialisations satisfying the hypothesis of the unconditional theorem *)
+Example ex_xhistory_interrupted_hyps :
+  let h := [XInterrupted 2 (OParse [1]%N); XInterrupted 5 (OSplit [2]%N); XOp (OParse [1]%N);
+            XOp OClear; XInterrupted 4 ODefaultInit; XOp (OSplit [2]%N)] in
+  kf_interrupted_init h = true /\ ends_defaultb (strip h) = true.
+Proof. vm_compute. split; reflexivity. Qed.
